@@ -65,6 +65,16 @@ class VJsonMapped(V):
     kind = "jsonmapped"
 
 
+@dataclass
+class VGen(V):
+    """A generator expression (evaluated lazily by any()/all())."""
+
+    node: Any
+    env: Any
+    fi: Any
+    kind = "genexp"
+
+
 class Site:
     """Symbol table of one verification site (one hook at one use-site type)."""
 
@@ -74,6 +84,7 @@ class Site:
         self.touched: Set[str] = set()  # node paths probed by the code
         self.axioms: List[str] = []
         self._strict_slots: List[Tuple[str, str, frozenset]] = []
+        self.witness_arrays: Set[str] = set()  # arrays for which an existential witness element [w] is modelled (any()/all())
 
     def sym(self, name: str, sort: str) -> str:
         n = q(name)
@@ -302,6 +313,8 @@ class Validity:
             for i in range(NELEMS):
                 cs.append(Implies(smt.Gt(ln, smt.sint(i)), self.valid(t["element"], S.elem(p, i), strict, depth + 1)))
             cs.append(Implies(smt.Gt(ln, smt.sint(NELEMS)), self.valid(t["element"], S.elem(p, "*"), strict, depth + 1)))
+            if p in S.witness_arrays:
+                cs.append(Implies(smt.Gt(ln, smt.sint(NELEMS)), self.valid(t["element"], S.elem(p, "w"), strict, depth + 1)))
             return And(*cs)
         if k == "tuple":
             if not self.expanded(p):
@@ -339,6 +352,12 @@ class Validity:
 # ---------------------------------------------------------------------------------------------
 # interpreter extension
 # ---------------------------------------------------------------------------------------------
+
+
+def raise_inf():
+    from pyvc.symex import Infeasible
+
+    raise Infeasible()
 
 
 class HookInterp(Interp):
@@ -571,7 +590,63 @@ class HookInterp(Interp):
                 raise Unsupported(f"converter.structure({type(x).__name__}, {type(c).__name__})")
         return None
 
+    def anyall_hook(self, ctx: Ctx, name: str, v: V) -> V:
+        if not isinstance(v, VGen):
+            raise Unsupported(f"{name} over {v}")
+        e = v.node
+        if len(e.generators) != 1 or e.generators[0].ifs or e.generators[0].is_async:
+            raise Unsupported("generator shape")
+        g = e.generators[0]
+        it = force(ctx, self.eval(ctx, g.iter, v.env, v.fi))
+        is_any = name == "any"
+
+        def pred(node) -> bool:
+            env2 = dict(v.env)
+            self.assign(ctx, g.target, node, env2, v.fi)
+            return self.truth(ctx, self.eval(ctx, e.elt, env2, v.fi))
+
+        if isinstance(it, (VList, VTuple)):
+            for item in it.items:
+                t = pred(item)
+                if is_any and t:
+                    return VBool(TRUE)
+                if not is_any and not t:
+                    return VBool(FALSE)
+            return VBool(FALSE if is_any else TRUE)
+        if not isinstance(it, VJson):
+            raise Unsupported(f"{name} over {it}")
+        kind = self.node_class(ctx, it)
+        if kind != "arr":
+            raise PyRaise("TypeError", [], f"{name}() over a JSON {kind}: elements are not the values the hook expects")
+        S = self.site
+        ln = S.length(it.path)
+        k = ctx.choose([Eq(ln, "0")] + [Eq(ln, smt.sint(i)) for i in range(1, NELEMS + 1)] + [smt.Gt(ln, smt.sint(NELEMS))])
+        for i in range(min(k, NELEMS)):
+            t = pred(VJson(S.elem(it.path, i)))
+            if is_any and t:
+                return VBool(TRUE)
+            if not is_any and not t:
+                return VBool(FALSE)
+        if k <= NELEMS:
+            return VBool(FALSE if is_any else TRUE)
+        # the rest of the array: generic element [*] (universal) and witness element [w] (existential)
+        S.witness_arrays.add(it.path)
+        gen, wit = VJson(S.elem(it.path, "*")), VJson(S.elem(it.path, "w"))
+        exists = ctx.choose([TRUE, TRUE]) == 0  # fork: some remaining element decides / none does
+        if exists:
+            t = pred(wit)
+            if t != is_any:
+                raise_inf()
+            return VBool(TRUE if is_any else FALSE)
+        for node in (gen, wit):
+            t = pred(node)
+            if t == is_any:
+                raise_inf()
+        return VBool(FALSE if is_any else TRUE)
+
     def expr_hook(self, ctx: Ctx, e: ast.expr, env, fi):
+        if isinstance(e, ast.GeneratorExp):
+            return VGen(e, dict(env), fi)
         if isinstance(e, ast.ListComp):
             if len(e.generators) != 1 or e.generators[0].ifs or e.generators[0].is_async:
                 raise Unsupported("comprehension shape")
